@@ -566,7 +566,21 @@ class ExcFlow:
                 recv = n.func.value
                 dyn = isinstance(recv, ast.JoinedStr) or isinstance(recv, (ast.Name, ast.Attribute, ast.Subscript, ast.BinOp, ast.Call))
                 if dyn:
-                    add('ValueError', 'format', n)
+                    # a template that is one of finitely many constants (a local with constant definitions, a parameter that
+                    # every call site of the package binds to a constant) is checked by formatting each of them
+                    tmpls = self.value_set(mod, fn, recv) if isinstance(recv, ast.Name) else None
+                    if tmpls is None and isinstance(recv, ast.Name):
+                        tmpls = self.param_values(mod, fn, recv.id)
+                    why = None
+                    if tmpls and all(isinstance(t, str) for t in tmpls) and n.func.attr == 'format' \
+                            and not any(isinstance(a, ast.Starred) for a in n.args) and all(k.arg for k in n.keywords):
+                        try:
+                            for t in tmpls:
+                                t.format(*['x'] * len(n.args), **{k.arg: 'x' for k in n.keywords})
+                            why = f'template is one of {len(tmpls)} constant(s), each valid for {len(n.args)} positional argument(s)'
+                        except (ValueError, IndexError, KeyError):
+                            why = None
+                    add('ValueError', 'format', n, why)
             elif cn.split('.')[-1] in ('strptime', 'fromisoformat') and cn.split('.')[0] in self.dt_names(mod):
                 if any(ev_const(a) is None for a in n.args):
                     add('ValueError', 'datetime', n)
@@ -643,6 +657,31 @@ class ExcFlow:
                 e = e.args[0]
             else:
                 break
+        if isinstance(e, ast.Call) and call_name(e) in ('cast', 'typing.cast') and len(e.args) == 2:
+            e = e.args[1]
+        if isinstance(e, ast.Attribute) and e.attr == 'lastindex' and isinstance(e.value, ast.Name):
+            # M.lastindex: the number of the group that closed last; never None when every top-level alternative of the regex
+            # is a capturing group
+            import re._constants as _sc
+            regs = [r for r, _ in self.regex_of_match_var(mod, fn, e.value.id)]
+            if not regs:
+                return False, f'match object `{e.value.id}` is not traced to an inventoried regex'
+            values = set()
+            for r in regs:
+                if not isinstance(r.pattern, str):
+                    return False, 'template regex'
+                tree = _sp.parse(r.pattern, r.flags)
+                items = list(tree)
+                alts = items[0][1][1] if len(items) == 1 and items[0][0] is _sc.BRANCH else [items]
+                for alt in alts:
+                    alt = list(alt)
+                    if not (len(alt) == 1 and alt[0][0] is _sc.SUBPATTERN and alt[0][1][0] is not None):
+                        return False, f'{r.name}: an alternative without a capturing group can match (lastindex would be None)'
+                values |= set(range(1, tree.state.groups))
+            missing = sorted(values - keys)
+            if missing:
+                return False, f'lastindex can be {missing[0]} for {", ".join(r.name for r in regs)}, which is not a key of the table {sorted(map(str, keys))}'
+            return True, f'lastindex of {", ".join(r.name for r in regs)} is one of {sorted(values)}, all keys of the table'
         if not (isinstance(e, ast.Call) and isinstance(e.func, ast.Attribute) and e.func.attr == 'group'
                 and isinstance(e.func.value, ast.Name) and e.args):
             return False, f'key `{unparse(sub.slice)}` is not traced to a regex group'
@@ -705,8 +744,56 @@ class ExcFlow:
                 if vals is None:
                     return None
                 out |= vals
+            if not n_defs and e.id in [a.arg for a in fn.args.args] and depth < 4:
+                return self.param_values(mod, fn, e.id)
             return out if n_defs else None
         return None
+
+    def param_values(self, mod, fn, name):
+        """The constants every call site of `fn` in the package passes for parameter `name` (None if some site is not constant
+        or the function is referenced other than by a direct call)."""
+        params = [a.arg for a in fn.args.args]
+        if name not in params:
+            return None
+        pos = params.index(name)
+        is_method = bool(params) and params[0] in ('self', 'cls')
+        out = set()
+        n_sites = 0
+        for m2 in self.ctx.src.mods.values():
+            for c in ast.walk(m2.tree):
+                if isinstance(c, (ast.Name, ast.Attribute)) and (c.id if isinstance(c, ast.Name) else c.attr) == fn.name and isinstance(c.ctx, ast.Load):
+                    par = m2.parents.get(c)
+                    if not (isinstance(par, ast.Call) and par.func is c):
+                        if isinstance(c, ast.Name) and m2 is not mod and fn.name not in m2.aliases:
+                            continue            # another module's unrelated name
+                        return None             # the function escapes as a value
+                    call = par
+                    i = pos - (1 if is_method and isinstance(c, ast.Attribute) else 0)
+                    arg = call.args[i] if 0 <= i < len(call.args) and not any(isinstance(a, ast.Starred) for a in call.args[:i + 1]) else next(
+                        (k.value for k in call.keywords if k.arg == name), None)
+                    if arg is None:
+                        d = fn.args.defaults
+                        k = pos - (len(params) - len(d))
+                        arg = d[k] if 0 <= k < len(d) else None
+                        if arg is None:
+                            return None
+                        v = self.inv.folder.try_ev(mod.name, arg, default=None)
+                    else:
+                        v = self.inv.folder.try_ev(m2.name, arg, default=None)
+                        if v is None:
+                            q2 = m2.enclosing_function(call)
+                            f2 = m2.functions.get(q2) if q2 else None
+                            vs = self.value_set(m2, f2, arg) if f2 is not None else None
+                            if vs is None:
+                                return None
+                            out |= vs
+                            n_sites += 1
+                            continue
+                    if not isinstance(v, (str, int, float, bool, bytes)):
+                        return None
+                    out.add(v)
+                    n_sites += 1
+        return out if n_sites else None
 
     def element_set(self, mod, fn, e, depth=0):
         """The finite set of constants an iteration over `e` can yield."""
@@ -752,9 +839,75 @@ class ExcFlow:
                                for i in self.ctx.types.items(t2)):
                             return None
             return out if n_sites else None
-        if isinstance(e, ast.Name):
-            return None
+        if isinstance(e, ast.Name) and fn is not None and depth < 5:
+            # a sequence held in a local: a constant definition, a slot of the rows of a constant table the enclosing loop unpacks
+            # (`for a, b, fields in TABLE:`), or a parameter bound at every call site
+            out, n_defs = set(), 0
+            for st in walk_no_nested(fn):
+                seqs = None
+                if isinstance(st, ast.Assign) and any(isinstance(t, ast.Name) and t.id == e.id for t in st.targets):
+                    v = self.inv.folder.try_ev(mod.name, st.value, default=None)
+                    seqs = [v] if isinstance(v, (tuple, list)) else None
+                elif isinstance(st, (ast.For, ast.comprehension)) and isinstance(st.target, (ast.Tuple, ast.List)) \
+                        and any(isinstance(t, ast.Name) and t.id == e.id for t in st.target.elts):
+                    k = [i for i, t in enumerate(st.target.elts) if isinstance(t, ast.Name) and t.id == e.id][0]
+                    rows = self.table_rows(mod, st.iter)
+                    seqs = [r[k] for r in rows] if rows is not None and all(isinstance(r, (tuple, list)) and len(r) > k for r in rows) else None
+                else:
+                    continue
+                n_defs += 1
+                if seqs is None or not all(isinstance(sq, (tuple, list)) and all(isinstance(x, (str, int, bool, float, bytes)) for x in sq) for sq in seqs):
+                    return None
+                for sq in seqs:
+                    out |= set(sq)
+            if n_defs:
+                return out
+            params = [a.arg for a in fn.args.args]
+            if e.id in params:
+                return self.param_elements(mod, fn, e.id, depth + 1)
         return None
+
+    def table_rows(self, mod, e):
+        """The rows of a constant module-level table; members that are not plain data (compiled regexes, functions) are kept as
+        opaque placeholders."""
+        v = self.inv.folder.try_ev(mod.name, e, default=None)
+        if isinstance(v, (tuple, list)):
+            return list(v)
+        node = self.inv.folder.env_nodes.get(mod.name, {}).get(e.id) if isinstance(e, ast.Name) else None
+        if isinstance(node, (ast.Tuple, ast.List)):
+            rows = []
+            for r in node.elts:
+                if not isinstance(r, (ast.Tuple, ast.List)):
+                    return None
+                rows.append(tuple(self.inv.folder.try_ev(mod.name, x, default=('opaque', ast.unparse(x))) for x in r.elts))
+            return rows
+        return None
+
+    def param_elements(self, mod, fn, name, depth=0):
+        """Union of the elements of the sequences every call site passes for parameter `name`."""
+        params = [a.arg for a in fn.args.args]
+        pos = params.index(name)
+        is_method = bool(params) and params[0] in ('self', 'cls')
+        out, n_sites = set(), 0
+        for m2 in self.ctx.src.mods.values():
+            for c in ast.walk(m2.tree):
+                if isinstance(c, ast.Attribute if is_method else (ast.Name, ast.Attribute)) and (getattr(c, 'attr', None) or getattr(c, 'id', None)) == fn.name \
+                        and isinstance(c.ctx, ast.Load):
+                    par = m2.parents.get(c)
+                    if not (isinstance(par, ast.Call) and par.func is c):
+                        return None
+                    i = pos - (1 if is_method else 0)
+                    arg = par.args[i] if 0 <= i < len(par.args) else next((k.value for k in par.keywords if k.arg == name), None)
+                    if arg is None:
+                        return None
+                    q2 = m2.enclosing_function(par)
+                    f2 = m2.functions.get(q2) if q2 else None
+                    vals = self.element_set(m2, f2, arg, depth + 1)
+                    if vals is None:
+                        return None
+                    out |= vals
+                    n_sites += 1
+        return out if n_sites else None
 
     def dt_names(self, mod):
         out = set()
